@@ -436,6 +436,9 @@ class TBRMatchedMarkets:
       design = result[0]
       # map from geo indices to geo IDs.
       for d in design:
+        # The stored designs keep their geo indices, so that the results can be
+        # retrieved more than once.
+        d = copy.copy(d)
         treatment_geos = {self.data.geo_index[x] for x in d.treatment_geos}
         control_geos = {self.data.geo_index[x] for x in d.control_geos}
         d.treatment_geos = treatment_geos
